@@ -364,3 +364,7 @@ def run(ctx):
     reduction_rule(ctx)
     flag_rule(ctx)
     lazy_rule(ctx)
+    # the rotated laws (transversely isotropic, orthotropic, anisotropic) are P C P^T with P from Get_Pmat / Apply_Pmat: R10.2, R10.3
+    from . import c10
+
+    c10.pmat_rules(ctx)
